@@ -47,6 +47,19 @@ Theorem C04_mem_steps_linearizable : forall (S R : Type) (ss : list S) (progs : 
 Proof. exact @fine_linearizable. Qed.
 Print Assumptions C04_mem_steps_linearizable.
 
+(* the linearization point lies INSIDE the critical section: whenever a commit on shard j executes - after any
+   prefix of any schedule - the committing thread holds shard j's lock at that instant (the write lock if it
+   writes) and the lock table shows it.  A step released before another step was acquired is therefore
+   committed before it: the commit order is consistent with the real-time order of the steps. *)
+Theorem C04_mem_commit_inside_section : forall (S R : Type) atomic (ss : list S) (progs : list (list (mact S R))) s1 i',
+  Forall (fun p => held_after None p = Some None) progs ->
+  let m := run (msem atomic) s1 (msh_init ss, map mthread_of progs) in
+  forall i j w f sh, (mstep (msem atomic) i' m).2 = Some (i, MCommit j w f, sh) ->
+    exists t w' l, m.2 !! i = Some t /\ held (loc t) = Some (j, w', true) /\ (w = true -> w' = true) /\
+              locks m.1 !! j = Some l /\ (if w' then lwriter l = true else (1 <= lreaders l)%nat).
+Proof. exact @commit_inside_section. Qed.
+Print Assumptions C04_mem_commit_inside_section.
+
 (* the store's own programs (request threads = lists of store steps: an announce is count read, selection,
    update; expiry passes = per shard a read section that snapshots the infohashes, then one write step per
    infohash) are well-locked, so all of the above applies to them: *)
